@@ -203,6 +203,7 @@ def handle (d : DS) (line : String) : DS × String :=
     let prog? : Option Prog :=
       match w, parseOct (get "mode") with
       | "writefile", some m => some (writeFileP tmpdir d.dest m chunks)
+      | "fstreeput", _ => some (fstreePutP tmpdir d.dest chunks)
       | "createatomic", some m => some (createAtomicP optdir tmpdir d.dest m chunks (get "readfails" = "1"))
       | "fileunpack", _ => optdir.map (fun od => fileUnpackP od tmpdir d.dest chunks (get "readfails" = "1"))
       | "symlink", _ => some (symlinkP (get "target") d.dest)
